@@ -11,7 +11,7 @@ META = dict(
           'guest type (must abort before the call: guest call count 0); per return kind guest bit patterns incl. values that do not fit the application type; '
           'guest functions are written against this generator\'s own ABI table (lp32 and wide). H: BFS over histories on three instances bound to two libraries '
           'exporting the same names (mbox by-name; mbox with function addresses in an internal representation distinct from the invocation pointer, i.e. needs_internal_lookup_symbol; '
-          'dylib with per-instance file copies): invoke, invoke the name whose address is taken, take a function address, pass it back, destroy, re-create with another library; '
+          'dylib with per-instance file copies): invoke, invoke the name whose address is taken, take a function address, pass it back, a NESTED call chain (invoke on instance i with a callback that, while it runs, registers a callback on instance i+1, invokes there a function that calls it, invokes a plain function there and one on i re-entrantly; the outer guest function then calls the outer callback a second time) with the callback handle passed directly or obtained through two move assignments, destroy, re-create with another library; a crash inside a chain is a violation of that history; '
           'states are deduplicated on the model state and the CONTENT of the symbol caches. states = history states, transitions = history operations; evaluations = generated cases + history checks.'),
     assumptions=['signature shapes beyond 2 parameters are covered by rotation, not exhaustively', 'struct fields that do not fit the guest type are left to C08 (they terminate inside noexcept members)'],
 )
@@ -41,6 +41,5 @@ def run(ctx):
     names = [n for n, _, _ in specs if n.startswith('c11_')]
     with cf.ThreadPoolExecutor(max_workers=16) as ex:
         list(ex.map(lambda n: ctx.run(bins[n], [], parts=1, workers=1), names))
-    ctx.run(bins['c11h_mbox'], ['--thorough'] if ctx.thorough else [], parts=1)
-    ctx.run(bins['c11h_mbox_internal'], ['--thorough'] if ctx.thorough else [], parts=1)
-    ctx.run(bins['c11h_dylib'], ['--thorough'] if ctx.thorough else [], parts=1)
+    with cf.ThreadPoolExecutor(max_workers=3) as ex:
+        list(ex.map(lambda n: ctx.run(bins[n], ['--thorough'] if ctx.thorough else [], parts=1, workers=1), ['c11h_mbox', 'c11h_mbox_internal', 'c11h_dylib']))
